@@ -27,6 +27,9 @@ type World struct {
 	Funcs        []*ssa.Function         // every source function of the repo packages, anonymous ones included
 	byName       map[string]*ssa.Function
 	Renamed      []string // functions recognised under a new name (normalize.go)
+	fnAlias  map[string]*ssa.Function // pinned name → function that took its place (method ↔ function)
+	fnPinned map[*ssa.Function]string
+	idxOfMemo    map[*ssa.Function]bool
 	acqMemo      map[*ssa.Function]map[*types.Var]string
 	cg           *CallGraph
 	modsets      map[*ssa.Function]*modSet
@@ -186,6 +189,9 @@ func (w *World) FuncName(f *ssa.Function) string {
 	if f == nil {
 		return "<nil>"
 	}
+	if n, ok := w.fnPinned[f]; ok {
+		return strings.TrimPrefix(n, modPath+"/")
+	}
 	if f.Parent() != nil {
 		// anonymous: parent name + ordinal
 		p := f.Parent()
@@ -219,14 +225,64 @@ func (w *World) FuncName(f *ssa.Function) string {
 
 // Fn resolves an anchor. A missing anchor is "checker broken", not a violation.
 func (w *World) Fn(prop, name string) *ssa.Function {
-	f := w.byName[name]
+	f := w.FnOpt(name)
 	if f == nil {
 		brokenf(prop, "anchor", "function %s not found in the tree", name)
 	}
 	return f
 }
 
-func (w *World) FnOpt(name string) *ssa.Function { return w.byName[name] }
+// FnOpt finds a function by the name it has on the pinned tree. A method that was turned into a function
+// taking the former receiver as its first parameter (or the reverse) is the same unit to every rule — in
+// SSA the receiver is the first parameter either way — and keeps its pinned name in the reports.
+func (w *World) FnOpt(name string) *ssa.Function {
+	if f := w.byName[name]; f != nil {
+		return f
+	}
+	if f := w.fnAlias[name]; f != nil {
+		return f
+	}
+	var found *ssa.Function
+	if i := strings.Index(name, ".("); i >= 0 {
+		// pkg.(*T).m → pkg.m(recv *T, …)
+		j := strings.Index(name[i:], ").")
+		if j < 0 {
+			return nil
+		}
+		recv, meth := name[i+2:i+j], name[i+j+2:]
+		if g := w.byName[name[:i]+"."+meth]; g != nil && len(g.Params) > 0 && g.Signature.Recv() == nil {
+			t := g.Params[0].Type()
+			star := ""
+			if p, ok := t.(*types.Pointer); ok {
+				t, star = p.Elem(), "*"
+			}
+			if n, ok := t.(*types.Named); ok && star+n.Obj().Name() == recv {
+				found = g
+			}
+		}
+	} else if i := strings.LastIndex(name, "."); i >= 0 {
+		// pkg.m(x *T, …) → pkg.(*T).m(…): unique method of that name in the package
+		n := 0
+		for k, g := range w.byName {
+			if strings.HasPrefix(k, name[:i]+".(") && strings.HasSuffix(k, ")."+name[i+1:]) && g.Signature.Recv() != nil {
+				found = g
+				n++
+			}
+		}
+		if n != 1 {
+			found = nil
+		}
+	}
+	if found != nil {
+		if w.fnAlias == nil {
+			w.fnAlias = map[string]*ssa.Function{}
+			w.fnPinned = map[*ssa.Function]string{}
+		}
+		w.fnAlias[name] = found
+		w.fnPinned[found] = name
+	}
+	return found
+}
 
 func (w *World) Pos(p token.Pos) string {
 	if !p.IsValid() {
